@@ -159,6 +159,16 @@ func (g *scenGen) assets() {
 	if r.Chance(0.2) {
 		g.channels = g.channels[:r.Intn(3)]
 	}
+	// channels that cannot send, or only send, or serve a number range: what "the channel a contact is reached on" has to skip
+	if r.Chance(0.35) {
+		g.channels = append(g.channels, M{"uuid": UUID4(r), "name": "Shortcode", "address": "2020", "schemes": []string{"tel"}, "roles": []string{"receive"}, "country": "RW"})
+	}
+	if r.Chance(0.35) {
+		g.channels = append(g.channels, M{"uuid": UUID4(r), "name": "Bulk", "address": "+250788000000", "schemes": []string{"tel"}, "roles": []string{"send"}, "country": "RW", "match_prefixes": []string{"+25078", "+1206"}})
+	}
+	if r.Chance(0.15) {
+		g.channels = append(g.channels, M{"uuid": UUID4(r), "name": "Local Only", "address": "+12065550000", "schemes": []string{"tel"}, "roles": []string{"send", "receive"}, "country": "US", "allow_international": false})
+	}
 	allFields := []M{
 		{"uuid": UUID4(r), "key": "gender", "name": "Gender", "type": "text"},
 		{"uuid": UUID4(r), "key": "age", "name": "Age", "type": "number"},
